@@ -132,6 +132,18 @@ func clMergeHeapReset(c *Ctx) {
 				ok = true
 			}
 		}
+		for _, ret := range fi.Returns() {
+			pre := fi.MustPrecede(ret, func(x ssa.Instruction) bool {
+				for _, r := range resets {
+					if r == x {
+						return true
+					}
+				}
+				return false
+			})
+			c.Check(pre, fn, ret, "every way out of a positioning call went through the reset and re-collection of the inputs",
+				"a shortcut returns without repositioning the inputs (e.g. when the cursor already rests on the target): with equal items in several inputs the copies already consumed are not delivered again by the scan that follows")
+		}
 		c.Check(ok, fn, firstApp, "re-positioning resets the merge heap", "the cursors of the previous positioning stay in the heap: repositioning during a scan yields duplicates and walks stale cursors past the tail")
 		// heap.Init after all pushes, then Next establishes the first element
 		var hinit, nx ssa.Instruction
